@@ -79,7 +79,7 @@ func HarnessC11() {
 		"/u/only2.tpl": "2" + mX2,
 	}}
 	set := NewSet("verif", l1, l2)
-	form := verifChoice(24)
+	form := verifChoice(26)
 	verifObserve("form", form)
 	var src, want string
 	var fetched []string // names expected in the union of both loaders' Get logs
@@ -200,6 +200,17 @@ func HarnessC11() {
 		src = "{% include \"sub/child.tpl\" %}"
 		want = mBase + mB + "[" + V + W + "]|" + mB + "[" + V + W + "]"
 		fetched = []string{root+"/sub/child.tpl", root+"/base.tpl", root+"/sub/b.tpl"}
+	case 24: // one page reaches the same base through two different children: each child composes with the
+		// base by the name IT wrote - what another child did to "its" base must not show
+		l1.files[root+"/sub/c1.tpl"] = "{% extends \"../base.tpl\" %}{% block k %}" + mA + "{% endblock %}"
+		l1.files[root+"/sub/c2.tpl"] = "{% extends \"../base.tpl\" %}{% block k %}" + mB + "{{ v }}{% endblock %}"
+		src = "{% include \"sub/c1.tpl\" %}|{% include \"sub/c2.tpl\" %}|{% include \"base.tpl\" %}"
+		want = mBase + mA + "|" + mBase + mB + V + "|" + mBase + "K"
+		fetched = []string{root+"/sub/c1.tpl", root+"/sub/c2.tpl", root+"/base.tpl"}
+	case 25: // the same name written twice (include + import of one library, two includes of one file)
+		src = "{% include \"sub/b.tpl\" %}{% import \"lib.tpl\" m %}{{ m(v) }}{% include \"sub/b.tpl\" with v=w %}{% import \"lib.tpl\" m as n %}{{ n(w) }}"
+		want = mB + "[" + V + W + "]" + mLib + V + mB + "[" + W + W + "]" + mLib + W
+		fetched = []string{root+"/sub/b.tpl", root+"/lib.tpl"}
 	default: // nothing referenced: nothing fetched
 		src = "{{ v }}{# {% include \"sub/a.tpl\" %} #}{% comment %}{% include \"x.tpl\" %}{% endcomment %}"
 		want = V
